@@ -1,7 +1,7 @@
 """C07: cell capacity, value ranges and read bounds are enforced."""
 from ..gen import cells as G
 from ..gen import scripts as S
-from ..translate import arith
+from ..translate import arith, bsops
 from .C06 import bline, sline, LEAF_DAG
 from . import c07_depth
 
@@ -17,7 +17,12 @@ SPEC = dict(
              'exactly the next bits and advance by exactly that many, and raise leaving the slice unchanged when more is requested than remains '
              '(c07_read_bounds); every typed read leaves a suffix of its input (c07_read_suffix); the capacity comparisons themselves (check_overflow/'
              'check_underflow, the refs tests of store_ref/store_cell/store_slice) are re-translated from the source on every run and proved to refuse '
-             'exactly beyond 1023 bits / 4 refs (c07_src_*). The model is tied to the working tree by '
+             'exactly beyond 1023 bits / 4 refs (c07_src_bits_capacity, c07_src_refs_capacity, c07_src_read_bound); and the WHOLE store_* / load_* methods with the TvmBitarray methods '
+             'extend / append / frombytes / check_overflow / check_underflow / __delitem__ are re-translated from the source on every run and proved equal to the hand model for all '
+             'arguments and states (see C06), so c07_src_invariant (every regenerated builder operation keeps 1023 bits / 4 refs, returning or raising), c07_src_refuse_iff, '
+             'c07_src_refuse_iff_composite (raise iff out of range or no room; remaining refs of a slice) and c07_src_read_bounds (over-read raises and leaves the slice unchanged, '
+             'otherwise exactly the next bits and an advance by exactly that many) are theorems about the regenerated methods. store_snake_bytes stays hand model + differential testing. '
+             'The model is tied to the working tree by '
              'differential testing of builder histories at every fill level and of over-reads, each also checked on the library alone against an '
              'independent fits/range predictor.',
         level_note='Proved for all inputs: the statements above, about Model/Builder.lean. Only sampled: that the Python code behaves as the model '
@@ -26,15 +31,18 @@ SPEC = dict(
                    'against its 5-bit field (TL-B says <= 30), Address.hash_part is assumed to have 32 bytes. Non-consuming preload_* on an '
                    'over-read return short data (outside the property, recorded in design/C07.md).',
         technique='Lean 4 proof (hand model, invariant by induction over operation histories) + differential correspondence with the library '
-                  '+ source-regenerated arithmetic lemmas'),
-    translators=[('tvm_bitarray.py/builder.py capacity tests->Generated/Capacity.lean', arith.regenerator('Capacity'))],
+                  '+ source-regenerated methods (equality with the hand model proved for all inputs) and arithmetic lemmas'),
+    translators=[('tvm_bitarray.py/builder.py capacity tests->Generated/Capacity.lean', arith.regenerator('Capacity')),
+                 ('builder.py/tvm_bitarray.py store_* methods->Generated/BuilderOps.lean', bsops.regenerator('BuilderOps')),
+                 ('slice.py/tvm_bitarray.py load_*/preload_* methods->Generated/SliceOps.lean', bsops.regenerator('SliceOps'))],
     design_ref='DESIGN.md §6 C07',
     rule='builder histories at every fill level (0,1,1015..1023 bits x 0..4 refs) mixing fitting, overflowing and out-of-range stores '
          '(ints, var-ints, bits, bytes, refs, maybe-refs, cells, partly consumed slices, addresses, snake strings); each op must succeed iff '
          'its value is in range and its encoding fits; over-reads for every remaining length 0..16 x request 0..24 and random; depth limit; '
          'distinct = distinct script; all non-trivial',
     trusted_base=['Model/Builder.lean mirrors builder.py/slice.py/TvmBitarray by hand', 'harness/gen/scripts.py executors + independent TL-B encoder',
-                  'harness/translate/pyarith.py + arith.py (Python comparisons -> Lean) for the c07_src_* theorems'],
+                  'harness/translate/pyarith.py + arith.py (Python comparisons -> Lean) for the c07_src_* capacity tests',
+                  'harness/translate/pymeth.py + bsops.py (stateful methods -> Lean; declared interface) and lean/TonVerif/PyBits.lean for the c07_src_* method theorems; validated against the library on op scripts'],
     assumptions=['correspondence is sampled differential testing'],
 )
 
@@ -214,14 +222,14 @@ def src_search(ctx):
     by_refs = {len(n[2]): i for i, n in enumerate(dag)}
     for pt in found.get('bitsOverflow') or []:
         if pt['used'] <= 1023 and 1 <= pt['length'] <= 1100:
-            history(ctx, dag, cells, pt['used'], 0, 'src', ops=['b:' + '1' * pt['length']])
+            history(ctx, dag, cells, pt['used'], 0, 0, ops=['b:' + '1' * pt['length']])
     for pt in found.get('refsFull') or []:
         if pt['refs'] <= 4:
-            history(ctx, dag, cells, 0, pt['refs'], 'src', ops=['r:0'])
+            history(ctx, dag, cells, 0, pt['refs'], 0, ops=['r:0'])
     for name, mk in (('cellRefsOverflow', lambda k: f'cell:{k}'), ('sliceRefsOverflow', lambda k: f'sl:{k}:0:0')):
         for pt in found.get(name) or []:
             if pt['refs'] <= 4 and pt['more'] in by_refs and len(dag[by_refs[pt['more']]][1]) < 1023:
-                history(ctx, dag, cells, 0, pt['refs'], 'src', ops=[mk(by_refs[pt['more']])])
+                history(ctx, dag, cells, 0, pt['refs'], 0, ops=[mk(by_refs[pt['more']])])
     for pt in found.get('bitsUnderflow') or []:
         if pt['remaining'] <= 1023 and 1 <= pt['length'] <= 1023:
             for kind in ('lb', 'lu', 'sk'):
@@ -230,9 +238,49 @@ def src_search(ctx):
     return len(ctx.failures) > n0
 
 
+def src_search_methods(ctx):
+    """Search mode only: the (fill level, operation) points where a regenerated METHOD (Generated/BuilderOps.lean, SliceOps.lean)
+    differs from the hand model it is proved equal to (evaluated by Lean on the validation scripts), replayed as one-operation
+    histories at that fill level / as reads of that size on a slice with that many bits.  True = a concrete failing input was found."""
+    n0 = len(ctx.failures)
+    dag = [tuple(n) for n in bsops.CTX_DAG]
+    cells = G.lib_build(dag)
+    done = set()
+    for (fb, fr, toks), idx in bsops.diff_scripts(ctx, 'B', bsops.builder_scripts()):
+        # the fill level at which the op ran: replay the script up to it on the library
+        for i in idx:
+            k = toks[i].split(':')[0]
+            tok = 'bit:' + toks[i].split(':')[1] if k in ('bool', 'bi') else toks[i]
+            if tok.startswith('bit:') and tok not in ('bit:0', 'bit:1'):
+                continue
+            b = bsops.py_builder(cells, fb, fr, toks[:i]).split('|')
+            ub, ur = (0 if b[1] == '-' else len(b[1])), (0 if b[2] == '-' else b[2].count('.') + 1)
+            if (ub, ur, tok) in done or len(done) > 60:
+                continue
+            done.add((ub, ur, tok))
+            history(ctx, dag, cells, ub, ur, 0, ops=[tok])
+        if len(ctx.failures) > n0:
+            return True
+    reads = set()
+    for (bits, refs, toks), idx in bsops.diff_scripts(ctx, 'S', bsops.slice_scripts()):
+        for i in idx:
+            p = toks[i].split(':')
+            kind = {'lu': 'lu', 'li': 'li', 'lb': 'lb', 'sk': 'sk', 'lby': 'lby', 'bit': 'bit', 'lbool': 'bit', 'lr': 'lr', 'lmr': 'lmr', 'lvu': 'lvu', 'lc': 'lc', 'la': 'la', 'ld': 'lmr'}.get(p[0])
+            if kind is None:
+                continue
+            req = int(p[1]) if len(p) > 1 and kind in ('lu', 'li', 'lb', 'sk', 'lby') else 0
+            for rem in sorted({len(bits), req, max(req - 1, 0), req + 1, req * 8, max(req * 8 - 1, 0)}):
+                if rem <= 1023 and (kind, rem, req) not in reads and len(reads) < 80:
+                    reads.add((kind, rem, req))
+                    overread(ctx, rem, len(refs) % 3, req, kind)
+        if len(ctx.failures) > n0:
+            return True
+    return len(ctx.failures) > n0
+
+
 def run(ctx):
     rng = ctx.rng
-    if ctx.search and src_search(ctx):
+    if ctx.search and (src_search(ctx) or src_search_methods(ctx)):
         return
     for nrefs in range(0, 5):
         for kind in ('lr', 'pr', 'lmr', 'pmr', 'ld'):
